@@ -8,6 +8,7 @@ from kernel.term import Term
 from kernel import term
 from kernel import theory
 from logic import context
+from syntax import operator
 from util import unionfind
 
 
@@ -290,8 +291,17 @@ def infer_printed_type(t):
                         to_replaceT = t.var_T
                 find_to_replace(t.body)
             elif t.is_comb():
-                find_to_replace(t.fun)
-                find_to_replace(t.arg)
+                op_data = operator.get_info_for_fun(t.head)
+                if op_data is not None and \
+                   ((op_data.arity == operator.BINARY and t.is_binop()) or \
+                    (op_data.arity == operator.UNARY and len(t.args) == 1)):
+                    # The head is printed as an operator, which cannot carry
+                    # a type annotation. Look in the arguments only.
+                    for arg in t.args:
+                        find_to_replace(arg)
+                else:
+                    find_to_replace(t.fun)
+                    find_to_replace(t.arg)
 
         find_to_replace(t)
         recover_const_type(t)
